@@ -113,6 +113,9 @@ func main() {
 					}
 				}()
 				registry[id](c)
+				if len(id) == 3 && id[0] == 'C' {
+					errDisciplineSeen(c)
+				}
 			}()
 			cfgNames := []string{label}
 			if *tier == "thorough" {
